@@ -20,13 +20,14 @@ STRATA = [
     ("assume", 800, 12000),
     ("tuning", 500, 8000),
     ("reduce", 0, 3),
+    ("reduce-planted", 6, 64),
     ("suite", 0, 1),
     ("enum-reduce", 6, 48),
 ]
-REQUIRED_EVENTS = {"any": ["c01.models-checked", "c01.distinctness-checked", "l2.analyze", "l2.unassign_to", "l2.learned-checked"],
+REQUIRED_EVENTS = {"any": ["l2.reduce_db-above-threshold", "l2.learned-vs-known-model", "c01.models-checked", "c01.distinctness-checked", "l2.analyze", "l2.unassign_to", "l2.learned-checked"],
                    "thorough": ["c01.models-checked", "c01.distinctness-checked", "l2.analyze", "l2.unassign_to",
                                 "l2.learned-checked", "l2.reduce_db", "l2.reduce_db-with-blocking"]}
-BATCH = {"reduce": 1, "enum-reduce": 1, "planted": 5}
+BATCH = {"reduce": 1, "reduce-planted": 1, "enum-reduce": 1, "planted": 5}
 
 setup = sc.setup
 gen = sc.gen
